@@ -202,6 +202,40 @@ def evaluate():
         e = [float(o[0]) + (a if sel[0] and meth != 'image_center' else 0),
              float(o[1]) + (b if sel[1] and meth != 'image_center' else 0)]
         return err(o2, e) <= P['tol'], 'shift %%r: origin %%r -> %%r' %% ((a, b), tuple(map(float, o)), tuple(map(float, o2)))
+    if clause == 'round':
+        # integer-valued image: exact centre of mass as a rational, nearest integer (exact ties excluded)
+        from fractions import Fraction
+        o = find_origin(IM, method=meth, axes=axes, round_output=True)
+        A = np.asarray(IM).astype(np.int64)
+        tot = int(A.sum()); bad = []
+        for a in (0, 1):
+            if sel[a]:
+                w = int((np.arange(A.shape[a]) * A.sum(axis=1 - a)).sum())
+                c = Fraction(w, tot); f = c - (c.numerator // c.denominator)
+                if f == Fraction(1, 2):
+                    continue
+                e = c.numerator // c.denominator + (1 if f > Fraction(1, 2) else 0)
+            else:
+                e = centre[a]
+            if float(o[a]) != e:
+                bad.append('axis %%d: %%r, nearest integer to the centre of mass is %%r' %% (a, o[a], e))
+        return not bad, '; '.join(bad)
+    if clause == 'round-gaussian':
+        o = find_origin(IM, method='gaussian', axes=axes, round_output=True)
+        e = [round(P['expected'][a]) if sel[a] else centre[a] for a in (0, 1)]
+        return [float(v) for v in o] == [float(v) for v in e], 'rounded origin %%r expected %%r' %% (tuple(o), e)
+    if clause == 'projections':
+        o1 = find_origin(IM, method='convolution', axes=axes)
+        o2, c0, c1 = find_origin(IM, method='convolution', axes=axes, projections=True)
+        ok = tuple(map(float, o1)) == tuple(map(float, o2))
+        for a, cv in ((0, c0), (1, c1)):
+            if not sel[a]:
+                ok = ok and cv is None
+                continue
+            p = np.asarray(IM).sum(axis=1 - a)
+            want = [sum(p[i] * p[k - i] for i in range(len(p)) if 0 <= k - i < len(p)) for k in range(2 * len(p) - 1)]
+            ok = ok and cv is not None and len(cv) == len(want) and np.allclose(cv, want, rtol=1e-12, atol=0)
+        return ok, 'origin %%r / %%r' %% (tuple(map(float, o1)), tuple(map(float, o2)))
     if clause == 'scale':
         o2 = find_origin(IM * P['factor'], method=meth, axes=axes)
         return err(o2, [float(v) for v in o]) <= P['tol'], 'factor %%r: origin %%r -> %%r' %% (
@@ -226,6 +260,21 @@ def mkhit(clause, meth, axes, IM, what, tol, **extra):
     d = dict(shape=list(np.asarray(IM).shape), method=meth, axes=repr(axes))
     d.update(extra)
     return Hit(clause, 'C13:%s:%s:axes=%s' % (clause, meth, repr(axes).replace(' ', '')), what, snip, d)
+
+
+def eval_snippet_clause(hit):
+    """run the replay program of a prospective hit in-process: True = clause holds"""
+    import contextlib
+    import io
+    g = {'__name__': 'c13_clause'}
+    try:
+        with contextlib.redirect_stdout(io.StringIO()):
+            exec(compile(hit.snippet, '<C13 clause>', 'exec'), g)
+    except SystemExit as e:
+        return e.code == 0
+    except Exception:       # noqa
+        return False
+    return True
 
 
 def gaussian_spot(rng, n, m):
@@ -321,6 +370,29 @@ def search(ctx, rng, budget):
             if not good_ic:
                 hits.append(mkhit('image_center', meth, axes, C, 'image_center does not report (rows//2, cols//2)',
                                   0.0, expected=centre))
+        # 5b. option values: round_output=True (com) = nearest integer to the exact centre of mass, on
+        #     integer-valued images (symmetric about a pixel centre, and arbitrary content); projections=True
+        Cint = np.round(C).astype(float)
+        s0e, s1e = 2 * int(rng.integers(max(0, (n - 1) // 2 - 2), min(n - 1, (n - 1) // 2 + 2) + 1)), \
+            2 * int(rng.integers(max(0, (m - 1) // 2 - 2), min(m - 1, (m - 1) // 2 + 2) + 1))
+        Spix = symmetric_image(rng, n, m, s0e, s1e, 1, 9) * float(rng.choice([1.0, 3.0, 7.0]))
+        for X, tag in ((Cint, 'content'), (Spix, 'pixel-symmetric')):
+            if X.sum() == 0:
+                continue
+            n_eval += 1
+            distinct.add(('round', tag, repr(axes), n % 2, m % 2))
+            h = mkhit('round', 'com', axes, X, 'find_origin(method="com", round_output=True) is not the integer nearest to '
+                      'the centre of mass (%s image %r)' % (tag, X.shape), 0.0)
+            rc_ok = eval_snippet_clause(h)
+            if not rc_ok:
+                hits.append(h)
+        if it % 2 == 0 and n * m <= 900:
+            n_eval += 1
+            distinct.add(('projections', repr(axes), n % 2, m % 2))
+            h = mkhit('projections', 'convolution', axes, Cint, 'find_origin(method="convolution", projections=True) does '
+                      'not return the same origin plus the autoconvolved projections', 0.0)
+            if not eval_snippet_clause(h):
+                hits.append(h)
         # 6. Gaussian fit on noiseless spots (optimiser external: only swept)
         if it % 3 == 0:
             gn, gm = (int(v) for v in rng.integers(12, 80, size=2))
@@ -346,6 +418,12 @@ def search(ctx, rng, budget):
             if not good_scale:
                 hits.append(mkhit('scale', 'gaussian', axes, G, 'multiplying a Gaussian spot by 3.7 moves the fitted origin',
                                   TOL['gaussian'], factor=3.7))
+            if all(abs(v - np.floor(v) - 0.5) > 1e-3 for v in mu):
+                n_eval += 1
+                h = mkhit('round-gaussian', 'gaussian', axes, G, 'find_origin(method="gaussian", round_output=True) is not '
+                          'the integer nearest to the spot centre %r' % (mu,), 0.0, expected=list(mu))
+                if not eval_snippet_clause(h):
+                    hits.append(h)
     return hits, n_eval, len(distinct)
 
 
@@ -371,7 +449,7 @@ def run(ctx):
                         'family, method, axes, parities, centre parities or shift signs); correspondence cases counted in '
                         'evaluations only',
                    samples=[dict(kind=c['kind'], shape=list(np.asarray(c['IM']).shape), method=c['meth'],
-                                 axes=repr(c['axes']), outcome=list(r)) for c, r in list(zip(cases, results))[:6]],
+                                 axes=repr(c['axes']), outcome=list(r[:3])) for c, r in list(zip(cases, results))[:6]],
                    exhaustive=False)
     new, seen = 0, set()
     for h in hits:
@@ -398,6 +476,9 @@ def run(ctx):
         'instance on integer-valued images (all sums exact, one correctly rounded division)',
         'scipy.ndimage.center_of_mass is modelled as sum_i i*proj[i] / sum(proj) on the projections (equal to '
         'sum(IM*grid)/sum(IM) in exact arithmetic; validated by the correspondence)',
+        'round_output: the executed (Q) model rounds with qround_even of model/Center.v (nearest, ties to even: '
+        'qround_even_near in C12_whole_origin), the theorems use the same rule on R (Rround, C13_round_nearest); the '
+        'correspondence includes exact ties (two equal point masses), the search excludes them',
         'the gaussian method (scipy.optimize.curve_fit) and the slice method (scipy.optimize.minimize) are not modelled: '
         'the gaussian method is only swept numerically on noiseless Gaussian spots (1e-6 px); slice is outside the property',
     ]
